@@ -65,6 +65,23 @@ type Strategy struct {
 	// the first block of the following phase (commitment and evaluations: first block of the accusing
 	// phase; accusation: first block of the apologizing phase; apology: first block after finalization).
 	LateCommit, LateEval, LateAccusation, LateApology bool
+	// Edge*: the transaction is signed by the rig and lands in the last block of its phase (still in
+	// phase). Late* wins if both are set.
+	EdgeCommit, EdgeEval, EdgeAccusation, EdgeApology bool
+	// EvalFirst puts the polynomial evaluations on the chain before the commitment (same block or
+	// earlier), which the honest sender never does.
+	EvalFirst bool
+	// Faithful marks a keyper whose messages are unchanged and all land within their phases: only the
+	// Edge* placements may be set. Such a keyper counts as honest.
+	Faithful bool
+}
+
+// FaithfulStrategy is an honest keyper whose messages are placed at the end of their phases.
+func FaithfulStrategy(n int, commit, eval, accusation, apology bool) Strategy {
+	s := HonestStrategy(n)
+	s.Faithful = true
+	s.EdgeCommit, s.EdgeEval, s.EdgeAccusation, s.EdgeApology = commit, eval, accusation, apology
+	return s
 }
 
 // HonestStrategy is the strategy that changes nothing.
@@ -97,6 +114,20 @@ func (s Strategy) String() string {
 		} else {
 			b.WriteByte('0')
 		}
+	}
+	b.WriteString(" edge=")
+	for _, l := range []bool{s.EdgeCommit, s.EdgeEval, s.EdgeAccusation, s.EdgeApology} {
+		if l {
+			b.WriteByte('1')
+		} else {
+			b.WriteByte('0')
+		}
+	}
+	if s.EvalFirst {
+		b.WriteString(" evalfirst")
+	}
+	if s.Faithful {
+		b.WriteString(" faithful")
 	}
 	return b.String()
 }
@@ -184,6 +215,8 @@ func RandomStrategy(r *hx.Rand, n, byzIndex int) Strategy {
 		s.Commit = CommitMode(1 + r.Intn(int(numCommitModes)-1))
 	}
 	s.LateCommit, s.LateEval, s.LateAccusation, s.LateApology = r.Chance(15), r.Chance(15), r.Chance(15), r.Chance(15)
+	s.EdgeCommit, s.EdgeEval, s.EdgeAccusation, s.EdgeApology = r.Chance(15), r.Chance(15), r.Chance(15), r.Chance(15)
+	s.EvalFirst = r.Chance(30)
 	return s
 }
 
@@ -191,6 +224,7 @@ func RandomStrategy(r *hx.Rand, n, byzIndex int) Strategy {
 type outMsg struct {
 	msg  *shmsg.Message
 	hold bool // sign it in the rig and release it after its phase
+	edge bool // sign it in the rig and release it into the last block of its phase
 }
 
 func bumpBytes(b []byte) []byte {
@@ -215,7 +249,7 @@ func (r *Rig) mutate(k *Keyper, msg *shmsg.Message) []outMsg {
 		case CommitTooMany:
 			pc.Gammas = append(pc.Gammas, append([]byte{}, pc.Gammas[0]...))
 		case CommitTwice:
-			return []outMsg{{msg, s.LateCommit}, {proto.Clone(msg).(*shmsg.Message), s.LateCommit}}
+			return r.commitOut(k, []outMsg{{msg, s.LateCommit, s.EdgeCommit}, {proto.Clone(msg).(*shmsg.Message), s.LateCommit, s.EdgeCommit}})
 		case CommitEquivocate:
 			coeffs := []*big.Int{}
 			for i := range pc.Gammas {
@@ -225,9 +259,9 @@ func (r *Rig) mutate(k *Keyper, msg *shmsg.Message) []outMsg {
 			if err != nil {
 				panic(err)
 			}
-			return []outMsg{{msg, s.LateCommit}, {shmsg.NewPolyCommitment(pc.Eon, poly.Gammas()), s.LateCommit}}
+			return r.commitOut(k, []outMsg{{msg, s.LateCommit, s.EdgeCommit}, {shmsg.NewPolyCommitment(pc.Eon, poly.Gammas()), s.LateCommit, s.EdgeCommit}})
 		}
-		return []outMsg{{msg, s.LateCommit}}
+		return r.commitOut(k, []outMsg{{msg, s.LateCommit, s.EdgeCommit}})
 
 	case msg.GetPolyEval() != nil:
 		pe := msg.GetPolyEval()
@@ -257,11 +291,18 @@ func (r *Rig) mutate(k *Keyper, msg *shmsg.Message) []outMsg {
 				recv, evals = append(recv, rb), append(evals, pe.EncryptedEvals[i])
 			}
 		}
+		stash := k.stashedCommit
+		k.stashedCommit = nil
 		if len(recv) == 0 {
-			return nil
+			return stash
 		}
 		pe.Receivers, pe.EncryptedEvals = recv, evals
-		return []outMsg{{msg, s.LateEval}}
+		for i := range stash {
+			// the commitment is not to overtake the evaluations
+			stash[i].hold = stash[i].hold || s.LateEval
+			stash[i].edge = stash[i].edge || s.EdgeEval
+		}
+		return append([]outMsg{{msg, s.LateEval, s.EdgeEval}}, stash...)
 
 	case msg.GetAccusation() != nil:
 		acc := msg.GetAccusation()
@@ -278,7 +319,7 @@ func (r *Rig) mutate(k *Keyper, msg *shmsg.Message) []outMsg {
 			return nil // the rig already sent the (false) accusation of this eon on its own
 		}
 		k.accusationInjected[acc.Eon] = true
-		return []outMsg{{msg, s.LateAccusation}}
+		return []outMsg{{msg, s.LateAccusation, s.EdgeAccusation}}
 
 	case msg.GetApology() != nil:
 		ap := msg.GetApology()
@@ -302,9 +343,18 @@ func (r *Rig) mutate(k *Keyper, msg *shmsg.Message) []outMsg {
 			return nil
 		}
 		ap.Accusers, ap.PolyEvals = accusers, evals
-		return []outMsg{{msg, s.LateApology}}
+		return []outMsg{{msg, s.LateApology, s.EdgeApology}}
 	}
-	return []outMsg{{msg, false}}
+	return []outMsg{{msg, false, false}}
+}
+
+// commitOut sends the commitment now, or with EvalFirst keeps it until the evaluations have gone out.
+func (r *Rig) commitOut(k *Keyper, outs []outMsg) []outMsg {
+	if k.Strategy.EvalFirst {
+		k.stashedCommit = append(k.stashedCommit, outs...)
+		return nil
+	}
+	return outs
 }
 
 // falseAccused lists the addresses the strategy accuses falsely.
@@ -321,12 +371,47 @@ func (r *Rig) falseAccused(k *Keyper) []common.Address {
 	return out
 }
 
+// evalsFirst reorders the dealing messages of keypers with EvalFirst: evaluations, then commitments, at
+// the place of the first of them; everything else keeps its place.
+func (r *Rig) evalsFirst(in []*heldTx) []*heldTx {
+	dealing := func(h *heldTx) bool {
+		s := r.Keypers[h.keyper].Strategy
+		return s != nil && s.EvalFirst && (h.msg.GetPolyEval() != nil || h.msg.GetPolyCommitment() != nil)
+	}
+	done := map[int]bool{}
+	var out []*heldTx
+	for _, h := range in {
+		if !dealing(h) {
+			out = append(out, h)
+			continue
+		}
+		if done[h.keyper] {
+			continue
+		}
+		done[h.keyper] = true
+		var commits []*heldTx
+		for _, g := range in {
+			if g.keyper != h.keyper || !dealing(g) {
+				continue
+			}
+			if g.msg.GetPolyEval() != nil {
+				out = append(out, g)
+			} else {
+				commits = append(commits, g)
+			}
+		}
+		out = append(out, commits...)
+	}
+	return out
+}
+
 // heldTx is a message of a Byzantine keyper waiting for its phase to end.
 type heldTx struct {
 	keyper int
 	msg    *shmsg.Message
 	eon    uint64
 	phases int64 // release so that it lands at eon start + phases * phase length
+	early  int64 // 1: lands in the last block of its phase instead
 }
 
 func eonOf(m *shmsg.Message) uint64 {
@@ -357,21 +442,31 @@ func (r *Rig) hold(k *Keyper, m *shmsg.Message) {
 	r.held = append(r.held, &heldTx{keyper: k.Index, msg: m, eon: eonOf(m), phases: phasesOf(m)})
 }
 
+func (r *Rig) holdEdge(k *Keyper, m *shmsg.Message) {
+	r.held = append(r.held, &heldTx{keyper: k.Index, msg: m, eon: eonOf(m), phases: phasesOf(m), early: 1})
+}
+
 // byzTick releases held transactions whose phase is over with the next block, and sends the false
 // accusations of Byzantine keypers whose honest code has nothing to accuse. Called once per round
 // before the block at height next is made.
 func (r *Rig) byzTick(next int64) {
 	L := r.Cfg.PhaseLength
 	rest := r.held[:0]
+	var release []*heldTx
 	for _, h := range r.held {
 		start, ok := r.EonStart[h.eon]
-		if ok && next >= start+h.phases*L {
-			r.Chain.Submit(r.signAs(h.keyper, h.msg), fmt.Sprintf("byz:%d:held", h.keyper))
+		if ok && next >= start+h.phases*L-h.early {
+			release = append(release, h)
 			continue
 		}
 		rest = append(rest, h)
 	}
 	r.held = rest
+	// EvalFirst: a keyper's evaluations go before its commitment
+	release = r.evalsFirst(release)
+	for _, h := range release {
+		r.Chain.Submit(r.signAs(h.keyper, h.msg), fmt.Sprintf("byz:%d:held", h.keyper))
+	}
 	for _, k := range r.Keypers {
 		accused := r.falseAccused(k)
 		if len(accused) == 0 {
